@@ -25,7 +25,25 @@ func main() {
 	shareddbg := flag.Bool("shared", false, "debug: list writes to shared locations")
 	mapdbg := flag.Bool("maporder", false, "debug: list all range-over-map sites with their class")
 	lintdbg := flag.Bool("lints", false, "debug: run every control-flow lint over every module function")
+	paritydbg := flag.String("parity", "", "debug: sibling-word parity, e.g. header,cookie")
 	flag.Parse()
+	if *paritydbg != "" {
+		abs, _ := filepath.Abs(*repo)
+		ctx, err := an.Load(abs, "dump", "quick")
+		if err != nil {
+			fmt.Fprintln(os.Stderr, err)
+			os.Exit(2)
+		}
+		w := strings.Split(*paritydbg, ",")
+		for _, d := range ctx.ModuleDirs() {
+			for _, f := range ctx.AllFuncs(d) {
+				for _, a := range an.Parity(f, w[0], w[1]) {
+					fmt.Printf("ASYM %s %s [%s] %s\n", ctx.Position(a.Pos), f.Name, a.Word, a.Norm)
+				}
+			}
+		}
+		return
+	}
 	if *lintdbg {
 		abs, _ := filepath.Abs(*repo)
 		ctx, err := an.Load(abs, "dump", "quick")
@@ -37,6 +55,9 @@ func main() {
 			for _, f := range ctx.AllFuncs(d) {
 				for _, h := range an.AllLints(f) {
 					fmt.Printf("LINT %s %s %s\n", ctx.Position(h.Pos), h.Construct, h.Msg)
+				}
+				for _, sc := range an.SelfCopies(f) {
+					fmt.Printf("SELFCOPY %s %s %s mapped=%d missing=%v\n", ctx.Position(sc.Lit.Pos()), f.Name, sc.Type, sc.Mapped, sc.Missing)
 				}
 			}
 		}
